@@ -251,7 +251,12 @@ def random_query(rng, kinds=None, values=None, n_entities=None, depth=3, n_preds
             content = rng.choice(["found", "a b", "x,y", "SELECT", "q\\\"uote", "tab\\\\t", "ünï", "WHERE it"])
             q.select_items.append(("string", '"' + content + '"'))
             q.select_tokens.append([strlit(content)])
-    # flatten
+    flatten(q)
+    return q
+
+
+def flatten(q):
+    """(re)compute tokens / kinds / lexemes from the AST fields of q"""
     toks = []
     for p in q.preds:
         toks += [("PREDICATE", "predicate"), ident(p.name), sym("(")]
@@ -277,6 +282,17 @@ def random_query(rng, kinds=None, values=None, n_entities=None, depth=3, n_preds
     q.kinds = [k for k, _ in toks]
     q.lexemes = [t for _, t in toks]
     return q
+
+
+def clone(q):
+    import copy
+    c = Query()
+    c.preds = [Pred(p.name, list(p.params), p.body) for p in q.preds]
+    c.from_items = list(q.from_items)
+    c.cond = q.cond
+    c.select_items = list(q.select_items)
+    c.select_tokens = [list(t) for t in q.select_tokens]
+    return c
 
 
 def plain(q):
